@@ -113,12 +113,13 @@ CLAIMS['C08'] = dict(
     technique=TECH_B + ' (real-arithmetic mode)', design='3 (C08)')
 
 CLAIMS['C04'] = dict(
-    text='For two interaction models (Klein-Nishina, e+ annihilation) in exact arithmetic and for every value of every random draw: energy is conserved on every '
-         'accepted path (with 2mc^2 for the annihilated positron), the secondary is emitted only above the model\'s threshold, and an exhausted secondary stack '
-         'gives an explicit failure with nothing emitted; draw count bounded per iteration.',
-    note='Only 2 of the ~15 models are covered; rejection loops followed for 3 iterations; momentum balance, unit directions and energy positivity ranges are not '
-         'decided in the quick tier.',
-    technique=TECH_B + ' (real-arithmetic mode with lemma schemas)', design='3 (C04)')
+    text='Exact arithmetic, every value of every random draw: Klein-Nishina and e+ annihilation conserve energy on every accepted path (2mc^2 for the positron), '
+         'emit the secondary only above the model threshold and fail explicitly with nothing emitted when the secondary stack is exhausted; the shared ionisation '
+         'final-state helper (Moller/Bhabha, muon/hadron ionisation) conserves energy and momentum for every projectile mass and knock-on energy <= W_max; the '
+         'Moller/Bhabha energy samplers return a fraction in [cutoff/T, max]. Open known finding F9: in-flight e+ annihilation does not conserve momentum.',
+    note='2 full interactors + 1 shared helper + 2 samplers of the ~15 models; rejection loops followed for 3 iterations; rotate is cut to its contract (C20.1) in the '
+         'momentum obligations; momentum balance of Klein-Nishina, unit directions and energy positivity ranges are not decided in the quick tier.',
+    technique=TECH_B + ' (real-arithmetic mode with lemma schemas, function cuts)', design='3 (C04)')
 
 CLAIMS['C09'] = dict(
     text='Bounding-zone stage of geometry construction as an inductive step: for arbitrary valid zones consistent with arbitrary regions at an arbitrary probe '
